@@ -26,6 +26,9 @@ def variants(case, tier, idx):
         vs.append({"memory": "dkmax", "start": -0.75, "dt": 0.125})
     if idx % 7 == 2 and case["A"] != eng.AINF and case["N"] <= 3:
         vs.append({"memory": "dkmax", "bath": "customcorr"})
+    if idx % 4 == 3:
+        # the exactly solvable model written in another (complex) basis, with and without degeneracy reduction
+        vs.append({"memory": "dkmax", "rot": "haar", "unique": bool(idx % 8 == 3)})
     if tier == "thorough":
         vs.append({"memory": "dkmax", "start": 1.0, "dt": 0.5, "unique": True})
     return vs
